@@ -17,6 +17,7 @@ fn main() {
         "compile" => drivers::misc::compile(&rest),
         "project" => drivers::misc::project(&rest),
         "c03" => drivers::c03::drive(&rest),
+        "c04" => drivers::c04::drive(&rest),
         "c05" => drivers::c05::drive(&rest),
         "c06" => drivers::c06::drive(&rest),
         "c14" => drivers::c14::drive(&rest),
